@@ -18,6 +18,8 @@ import (
 	"time"
 
 	"github.com/gorilla/websocket"
+	"golang.org/x/net/http2"
+	"golang.org/x/net/http2/h2c"
 
 	"verifharness/fakes"
 	"verifharness/hx"
@@ -477,12 +479,19 @@ func respBodyPieces(class string, rng *rand.Rand) []int {
 }
 
 type scriptedResp struct {
-	in      map[string]interface{}
-	head    []byte
-	pieces  [][]byte
-	chunked bool
-	tail    []byte
-	close   bool
+	status   int
+	hdrs     []hpair
+	trailers []hpair
+	declared int
+	interim  []int
+	noBody   bool
+	length   bool
+	in       map[string]interface{}
+	head     []byte
+	pieces   [][]byte
+	chunked  bool
+	tail     []byte
+	close    bool
 }
 
 func buildResp(c respCase, rng *rand.Rand, id string) *scriptedResp {
@@ -575,6 +584,7 @@ func buildResp(c respCase, rng *rand.Rand, id string) *scriptedResp {
 		tail.WriteString("\r\n")
 		s.tail = tail.Bytes()
 	}
+	s.status, s.hdrs, s.trailers, s.declared, s.interim, s.noBody, s.length = c.Status, hdrs, trailers, declared, interim, noBody, framing == "length"
 	s.in = map[string]interface{}{"status": c.Status, "reqMethod": c.Method, "hdrs": canonPairs(hdrs), "body": digest(body),
 		"trailers": trailers, "interim": interim}
 	if trailers == nil {
@@ -584,6 +594,56 @@ func buildResp(c respCase, rng *rand.Rand, id string) *scriptedResp {
 		s.in["interim"] = []int{}
 	}
 	return s
+}
+
+// serveH2 produces the scripted response through net/http (used for the h2c backend).
+func (s *scriptedResp) serveH2(w http.ResponseWriter, r *http.Request) {
+	for _, code := range s.interim {
+		if code == 103 {
+			w.Header().Set("Link", "</style.css>; rel=preload")
+		}
+		w.WriteHeader(code)
+		w.Header().Del("Link")
+	}
+	for _, h := range s.hdrs {
+		w.Header().Add(h[0], h[1])
+	}
+	var names []string
+	for i, t := range s.trailers {
+		if i < s.declared {
+			names = append(names, t[0])
+		}
+	}
+	if len(names) > 0 {
+		w.Header().Set("Trailer", strings.Join(names, ", "))
+	}
+	total := 0
+	for _, p := range s.pieces {
+		total += len(p)
+	}
+	if s.length && !(s.noBody && s.status == 204) {
+		w.Header().Set("Content-Length", strconv.Itoa(total))
+	}
+	w.WriteHeader(s.status)
+	fl, _ := w.(http.Flusher)
+	if !s.noBody {
+		for i, p := range s.pieces {
+			w.Write(p)
+			if fl != nil {
+				fl.Flush()
+			}
+			if i == 0 && len(s.pieces) > 1 {
+				time.Sleep(3 * time.Millisecond)
+			}
+		}
+	}
+	for i, t := range s.trailers {
+		if i < s.declared {
+			w.Header().Set(t[0], t[1])
+		} else {
+			w.Header().Set(http.TrailerPrefix+t[0], t[1])
+		}
+	}
 }
 
 // readFinalResponse reads responses from a connection until a final (non-1xx) one.
@@ -632,6 +692,27 @@ func httpRespDriver(a *Args) {
 	defer be.close()
 	var mu sync.Mutex
 	scripts := map[string]*scriptedResp{}
+	h2 := a.Mode == "h2c"
+	backendAddr := be.addr()
+	if h2 {
+		// an HTTP/2 (h2c, prior knowledge) backend producing the same abstract responses through net/http
+		ln := listen()
+		defer ln.Close()
+		backendAddr = ln.Addr().String()
+		srv := &http.Server{Handler: h2c.NewHandler(http.HandlerFunc(func(w http.ResponseWriter, r *http.Request) {
+			io.Copy(io.Discard, r.Body)
+			mu.Lock()
+			s := scripts[r.Header.Get("X-Case")]
+			mu.Unlock()
+			if s == nil {
+				w.Write([]byte("ok"))
+				return
+			}
+			s.serveH2(w, r)
+		}), &http2.Server{})}
+		go srv.Serve(ln)
+		defer srv.Close()
+	}
 	be.respond = func(id string, sr *seenRequest, c net.Conn) bool {
 		mu.Lock()
 		s := scripts[id]
@@ -672,7 +753,11 @@ func httpRespDriver(a *Args) {
 		return
 	}
 	defer proxy.Kill()
-	agent, err := hx.StartAgent(hx.Bin("agent"+suffix), md, fmt.Sprintf("http://127.0.0.1:%d/", port), be.addr(), "agent", nil, env)
+	var agentArgs []string
+	if h2 {
+		agentArgs = []string{"--force-http2"}
+	}
+	agent, err := hx.StartAgent(hx.Bin("agent"+suffix), md, fmt.Sprintf("http://127.0.0.1:%d/", port), backendAddr, "agent", agentArgs, env)
 	if err != nil {
 		res.Bad("agent: %v", err)
 		return
@@ -686,7 +771,17 @@ func httpRespDriver(a *Args) {
 		mu.Lock()
 		scripts[id] = s
 		mu.Unlock()
+		if h2 {
+			// HTTP/2 has no chunked / close-delimited framing: trailers are possible with any body
+			c.Framing = map[string]string{"length": "length", "chunked": "chunked", "close": "chunked"}[c.Framing]
+			if c.Interim == "100" {
+				c.Interim = "none" // net/http servers cannot emit a bare 100 themselves
+			}
+		}
 		sig := fmt.Sprintf("resp:%d/%s/%s/%s/%s/%s/d%d/u%d/%s", c.Status, c.Method, c.H1, c.H2, c.Framing, c.Body, c.Declared, c.Undeclared, c.Interim)
+		if h2 {
+			sig = "h2c-" + sig
+		}
 		raw := fmt.Sprintf("%s /c03/%s HTTP/1.1\r\nHost: svc.example\r\nX-Case: %s\r\n", c.Method, id, id)
 		if c.Method == "POST" {
 			raw += "Content-Length: 3\r\n\r\nabc"
